@@ -157,7 +157,7 @@ async def scenario(loop, case, inject_step, info):
             rival_task = loop.create_task(rival_loop())
         ids = []
         for i, j in enumerate(case["jobs"]):
-            id_ = f"j{i}"
+            id_ = f"j{i}" if i % 2 == 0 else f"j-{i}"  # (ids, like queue and actor names, may contain dashes)
             ids.append(id_)
             if j["kind"] == "fail_retry":
                 script = {"by_attempt": [{"do": "raise", "d": j["d"]}, {"do": "ok", "d": 0.1}]}
